@@ -94,8 +94,8 @@ package log
 //@ axiom poolKind[addr(eventPool)] == typetag(*Event)
 
 //@ func GetEvent
-//@   modifies nothing
-//@   ensures[C01,C03,C10:nonnil] result != nil
+//@   modifies pooled[result]
+//@   ensures[C01,C03,C10:nonnil] result != nil && !pooled[result]
 
 // FastCaller(skip) reports the frame skip+1 levels above its own frame, i.e. `skip` levels above its
 // caller.  ASSUMED for now (body not verified): stated from its documentation and TestCaller.
@@ -109,7 +109,7 @@ package log
 //@   requires logger != nil
 //@   requires 0 <= skip && skip <= 1000000
 //@   let on = enable(Logger.GetLevel(logger), level)
-//@   modifies appended[logger], lastLevel[logger], lastTag[logger], lastFields[logger], lastFile[logger], lastLine[logger], lastTime[logger], lastCtxString[logger], lastCtxFields[logger], all(Event), calls(TimeNow), calls(StringFromContext), calls(FieldsFromContext), lastNow
+//@   modifies appended[logger], lastLevel[logger], lastTag[logger], lastFields[logger], lastFile[logger], lastLine[logger], lastTime[logger], lastCtxString[logger], lastCtxFields[logger], all(Event), calls(TimeNow), calls(StringFromContext), calls(FieldsFromContext), lastNow, pooled
 //@   ensures[C01,C10:disabled] !on ==> appended[logger] == old(appended[logger]) && calls(TimeNow) == old(calls(TimeNow)) && calls(StringFromContext) == old(calls(StringFromContext)) && calls(FieldsFromContext) == old(calls(FieldsFromContext))
 //@   ensures[C01:once] on ==> appended[logger] == old(appended[logger]) + 1 && lastLevel[logger] == level && lastTag[logger] == tag && lastFields[logger] == fields
 //@   ensures[C10:time] on && TimeNow != nil ==> calls(TimeNow) == old(calls(TimeNow)) + 1 && arg0(TimeNow) == ctx && lastTime[logger] == ret(TimeNow, calls(TimeNow))
@@ -129,7 +129,7 @@ package log
 //@   requires 0 <= skip && skip <= 1000000
 //@   let on = enable(Logger.GetLevel(logger), level)
 //@   requires on
-//@   modifies appended[logger], lastLevel[logger], lastTag[logger], lastFields[logger], lastFile[logger], lastLine[logger], lastTime[logger], lastCtxString[logger], lastCtxFields[logger], all(Event), calls(TimeNow), calls(StringFromContext), calls(FieldsFromContext), lastNow
+//@   modifies appended[logger], lastLevel[logger], lastTag[logger], lastFields[logger], lastFile[logger], lastLine[logger], lastTime[logger], lastCtxString[logger], lastCtxFields[logger], all(Event), calls(TimeNow), calls(StringFromContext), calls(FieldsFromContext), lastNow, pooled
 //@   ensures[C01:once] on ==> appended[logger] == old(appended[logger]) + 1 && lastLevel[logger] == level && lastTag[logger] == tag && lastFields[logger] == fields
 //@   ensures[C10:time] on && TimeNow != nil ==> calls(TimeNow) == old(calls(TimeNow)) + 1 && arg0(TimeNow) == ctx && lastTime[logger] == ret(TimeNow, calls(TimeNow))
 //@   ensures[C10:time-default] on && TimeNow == nil ==> calls(TimeNow) == old(calls(TimeNow))
@@ -155,7 +155,7 @@ package log
 //@   requires fn != nil
 //@   let l = loggerOf(tag)
 //@   let on = enable(Logger.GetLevel(l), TraceLevel)
-//@   modifies appended[l], lastLevel[l], lastTag[l], lastFields[l], lastFile[l], lastLine[l], lastTime[l], lastCtxString[l], lastCtxFields[l], all(Event), calls(TimeNow), calls(StringFromContext), calls(FieldsFromContext), calls(fn), lastNow
+//@   modifies appended[l], lastLevel[l], lastTag[l], lastFields[l], lastFile[l], lastLine[l], lastTime[l], lastCtxString[l], lastCtxFields[l], all(Event), calls(TimeNow), calls(StringFromContext), calls(FieldsFromContext), calls(fn), lastNow, pooled
 //@   ensures[C01:own-level] on ==> appended[l] == old(appended[l]) + 1 && lastLevel[l] == TraceLevel && lastTag[l] == tag.tag
 //@   ensures[C01,C10:disabled] !on ==> appended[l] == old(appended[l]) && calls(TimeNow) == old(calls(TimeNow)) && calls(StringFromContext) == old(calls(StringFromContext)) && calls(FieldsFromContext) == old(calls(FieldsFromContext))
 //@   ensures[C10:lazy-once] calls(fn) == old(calls(fn)) + (on ? 1 : 0)
@@ -166,7 +166,7 @@ package log
 //@   requires tag != nil
 //@   let l = loggerOf(tag)
 //@   let on = enable(Logger.GetLevel(l), TraceLevel)
-//@   modifies appended[l], lastLevel[l], lastTag[l], lastFields[l], lastFile[l], lastLine[l], lastTime[l], lastCtxString[l], lastCtxFields[l], all(Event), calls(TimeNow), calls(StringFromContext), calls(FieldsFromContext), elems(Field), lastNow
+//@   modifies appended[l], lastLevel[l], lastTag[l], lastFields[l], lastFile[l], lastLine[l], lastTime[l], lastCtxString[l], lastCtxFields[l], all(Event), calls(TimeNow), calls(StringFromContext), calls(FieldsFromContext), elems(Field), lastNow, pooled
 //@   ensures[C01:own-level] on ==> appended[l] == old(appended[l]) + 1 && lastLevel[l] == TraceLevel && lastTag[l] == tag.tag
 //@   ensures[C01,C10:disabled] !on ==> appended[l] == old(appended[l]) && calls(TimeNow) == old(calls(TimeNow)) && calls(StringFromContext) == old(calls(StringFromContext)) && calls(FieldsFromContext) == old(calls(FieldsFromContext))
 //@   ensures[C11:caller] on && enableCaller && deep(up($frame, 1)) ==> lastFile[l] == frame_file(up($frame, 1)) && lastLine[l] == frame_line(up($frame, 1))
@@ -176,7 +176,7 @@ package log
 //@   requires fn != nil
 //@   let l = loggerOf(tag)
 //@   let on = enable(Logger.GetLevel(l), DebugLevel)
-//@   modifies appended[l], lastLevel[l], lastTag[l], lastFields[l], lastFile[l], lastLine[l], lastTime[l], lastCtxString[l], lastCtxFields[l], all(Event), calls(TimeNow), calls(StringFromContext), calls(FieldsFromContext), calls(fn), lastNow
+//@   modifies appended[l], lastLevel[l], lastTag[l], lastFields[l], lastFile[l], lastLine[l], lastTime[l], lastCtxString[l], lastCtxFields[l], all(Event), calls(TimeNow), calls(StringFromContext), calls(FieldsFromContext), calls(fn), lastNow, pooled
 //@   ensures[C01:own-level] on ==> appended[l] == old(appended[l]) + 1 && lastLevel[l] == DebugLevel && lastTag[l] == tag.tag
 //@   ensures[C01,C10:disabled] !on ==> appended[l] == old(appended[l]) && calls(TimeNow) == old(calls(TimeNow)) && calls(StringFromContext) == old(calls(StringFromContext)) && calls(FieldsFromContext) == old(calls(FieldsFromContext))
 //@   ensures[C10:lazy-once] calls(fn) == old(calls(fn)) + (on ? 1 : 0)
@@ -187,7 +187,7 @@ package log
 //@   requires tag != nil
 //@   let l = loggerOf(tag)
 //@   let on = enable(Logger.GetLevel(l), DebugLevel)
-//@   modifies appended[l], lastLevel[l], lastTag[l], lastFields[l], lastFile[l], lastLine[l], lastTime[l], lastCtxString[l], lastCtxFields[l], all(Event), calls(TimeNow), calls(StringFromContext), calls(FieldsFromContext), elems(Field), lastNow
+//@   modifies appended[l], lastLevel[l], lastTag[l], lastFields[l], lastFile[l], lastLine[l], lastTime[l], lastCtxString[l], lastCtxFields[l], all(Event), calls(TimeNow), calls(StringFromContext), calls(FieldsFromContext), elems(Field), lastNow, pooled
 //@   ensures[C01:own-level] on ==> appended[l] == old(appended[l]) + 1 && lastLevel[l] == DebugLevel && lastTag[l] == tag.tag
 //@   ensures[C01,C10:disabled] !on ==> appended[l] == old(appended[l]) && calls(TimeNow) == old(calls(TimeNow)) && calls(StringFromContext) == old(calls(StringFromContext)) && calls(FieldsFromContext) == old(calls(FieldsFromContext))
 //@   ensures[C11:caller] on && enableCaller && deep(up($frame, 1)) ==> lastFile[l] == frame_file(up($frame, 1)) && lastLine[l] == frame_line(up($frame, 1))
@@ -196,7 +196,7 @@ package log
 //@   requires tag != nil
 //@   let l = loggerOf(tag)
 //@   let on = enable(Logger.GetLevel(l), InfoLevel)
-//@   modifies appended[l], lastLevel[l], lastTag[l], lastFields[l], lastFile[l], lastLine[l], lastTime[l], lastCtxString[l], lastCtxFields[l], all(Event), calls(TimeNow), calls(StringFromContext), calls(FieldsFromContext), lastNow
+//@   modifies appended[l], lastLevel[l], lastTag[l], lastFields[l], lastFile[l], lastLine[l], lastTime[l], lastCtxString[l], lastCtxFields[l], all(Event), calls(TimeNow), calls(StringFromContext), calls(FieldsFromContext), lastNow, pooled
 //@   ensures[C01:own-level] on ==> appended[l] == old(appended[l]) + 1 && lastLevel[l] == InfoLevel && lastTag[l] == tag.tag && lastFields[l] == fields
 //@   ensures[C01,C10:disabled] !on ==> appended[l] == old(appended[l]) && calls(TimeNow) == old(calls(TimeNow)) && calls(StringFromContext) == old(calls(StringFromContext)) && calls(FieldsFromContext) == old(calls(FieldsFromContext))
 //@   ensures[C11:caller] on && enableCaller && deep(up($frame, 1)) ==> lastFile[l] == frame_file(up($frame, 1)) && lastLine[l] == frame_line(up($frame, 1))
@@ -205,7 +205,7 @@ package log
 //@   requires tag != nil
 //@   let l = loggerOf(tag)
 //@   let on = enable(Logger.GetLevel(l), InfoLevel)
-//@   modifies appended[l], lastLevel[l], lastTag[l], lastFields[l], lastFile[l], lastLine[l], lastTime[l], lastCtxString[l], lastCtxFields[l], all(Event), calls(TimeNow), calls(StringFromContext), calls(FieldsFromContext), elems(Field), lastNow
+//@   modifies appended[l], lastLevel[l], lastTag[l], lastFields[l], lastFile[l], lastLine[l], lastTime[l], lastCtxString[l], lastCtxFields[l], all(Event), calls(TimeNow), calls(StringFromContext), calls(FieldsFromContext), elems(Field), lastNow, pooled
 //@   ensures[C01:own-level] on ==> appended[l] == old(appended[l]) + 1 && lastLevel[l] == InfoLevel && lastTag[l] == tag.tag
 //@   ensures[C01,C10:disabled] !on ==> appended[l] == old(appended[l]) && calls(TimeNow) == old(calls(TimeNow)) && calls(StringFromContext) == old(calls(StringFromContext)) && calls(FieldsFromContext) == old(calls(FieldsFromContext))
 //@   ensures[C11:caller] on && enableCaller && deep(up($frame, 1)) ==> lastFile[l] == frame_file(up($frame, 1)) && lastLine[l] == frame_line(up($frame, 1))
@@ -214,7 +214,7 @@ package log
 //@   requires tag != nil
 //@   let l = loggerOf(tag)
 //@   let on = enable(Logger.GetLevel(l), WarnLevel)
-//@   modifies appended[l], lastLevel[l], lastTag[l], lastFields[l], lastFile[l], lastLine[l], lastTime[l], lastCtxString[l], lastCtxFields[l], all(Event), calls(TimeNow), calls(StringFromContext), calls(FieldsFromContext), lastNow
+//@   modifies appended[l], lastLevel[l], lastTag[l], lastFields[l], lastFile[l], lastLine[l], lastTime[l], lastCtxString[l], lastCtxFields[l], all(Event), calls(TimeNow), calls(StringFromContext), calls(FieldsFromContext), lastNow, pooled
 //@   ensures[C01:own-level] on ==> appended[l] == old(appended[l]) + 1 && lastLevel[l] == WarnLevel && lastTag[l] == tag.tag && lastFields[l] == fields
 //@   ensures[C01,C10:disabled] !on ==> appended[l] == old(appended[l]) && calls(TimeNow) == old(calls(TimeNow)) && calls(StringFromContext) == old(calls(StringFromContext)) && calls(FieldsFromContext) == old(calls(FieldsFromContext))
 //@   ensures[C11:caller] on && enableCaller && deep(up($frame, 1)) ==> lastFile[l] == frame_file(up($frame, 1)) && lastLine[l] == frame_line(up($frame, 1))
@@ -223,7 +223,7 @@ package log
 //@   requires tag != nil
 //@   let l = loggerOf(tag)
 //@   let on = enable(Logger.GetLevel(l), WarnLevel)
-//@   modifies appended[l], lastLevel[l], lastTag[l], lastFields[l], lastFile[l], lastLine[l], lastTime[l], lastCtxString[l], lastCtxFields[l], all(Event), calls(TimeNow), calls(StringFromContext), calls(FieldsFromContext), elems(Field), lastNow
+//@   modifies appended[l], lastLevel[l], lastTag[l], lastFields[l], lastFile[l], lastLine[l], lastTime[l], lastCtxString[l], lastCtxFields[l], all(Event), calls(TimeNow), calls(StringFromContext), calls(FieldsFromContext), elems(Field), lastNow, pooled
 //@   ensures[C01:own-level] on ==> appended[l] == old(appended[l]) + 1 && lastLevel[l] == WarnLevel && lastTag[l] == tag.tag
 //@   ensures[C01,C10:disabled] !on ==> appended[l] == old(appended[l]) && calls(TimeNow) == old(calls(TimeNow)) && calls(StringFromContext) == old(calls(StringFromContext)) && calls(FieldsFromContext) == old(calls(FieldsFromContext))
 //@   ensures[C11:caller] on && enableCaller && deep(up($frame, 1)) ==> lastFile[l] == frame_file(up($frame, 1)) && lastLine[l] == frame_line(up($frame, 1))
@@ -232,7 +232,7 @@ package log
 //@   requires tag != nil
 //@   let l = loggerOf(tag)
 //@   let on = enable(Logger.GetLevel(l), ErrorLevel)
-//@   modifies appended[l], lastLevel[l], lastTag[l], lastFields[l], lastFile[l], lastLine[l], lastTime[l], lastCtxString[l], lastCtxFields[l], all(Event), calls(TimeNow), calls(StringFromContext), calls(FieldsFromContext), lastNow
+//@   modifies appended[l], lastLevel[l], lastTag[l], lastFields[l], lastFile[l], lastLine[l], lastTime[l], lastCtxString[l], lastCtxFields[l], all(Event), calls(TimeNow), calls(StringFromContext), calls(FieldsFromContext), lastNow, pooled
 //@   ensures[C01:own-level] on ==> appended[l] == old(appended[l]) + 1 && lastLevel[l] == ErrorLevel && lastTag[l] == tag.tag && lastFields[l] == fields
 //@   ensures[C01,C10:disabled] !on ==> appended[l] == old(appended[l]) && calls(TimeNow) == old(calls(TimeNow)) && calls(StringFromContext) == old(calls(StringFromContext)) && calls(FieldsFromContext) == old(calls(FieldsFromContext))
 //@   ensures[C11:caller] on && enableCaller && deep(up($frame, 1)) ==> lastFile[l] == frame_file(up($frame, 1)) && lastLine[l] == frame_line(up($frame, 1))
@@ -241,7 +241,7 @@ package log
 //@   requires tag != nil
 //@   let l = loggerOf(tag)
 //@   let on = enable(Logger.GetLevel(l), ErrorLevel)
-//@   modifies appended[l], lastLevel[l], lastTag[l], lastFields[l], lastFile[l], lastLine[l], lastTime[l], lastCtxString[l], lastCtxFields[l], all(Event), calls(TimeNow), calls(StringFromContext), calls(FieldsFromContext), elems(Field), lastNow
+//@   modifies appended[l], lastLevel[l], lastTag[l], lastFields[l], lastFile[l], lastLine[l], lastTime[l], lastCtxString[l], lastCtxFields[l], all(Event), calls(TimeNow), calls(StringFromContext), calls(FieldsFromContext), elems(Field), lastNow, pooled
 //@   ensures[C01:own-level] on ==> appended[l] == old(appended[l]) + 1 && lastLevel[l] == ErrorLevel && lastTag[l] == tag.tag
 //@   ensures[C01,C10:disabled] !on ==> appended[l] == old(appended[l]) && calls(TimeNow) == old(calls(TimeNow)) && calls(StringFromContext) == old(calls(StringFromContext)) && calls(FieldsFromContext) == old(calls(FieldsFromContext))
 //@   ensures[C11:caller] on && enableCaller && deep(up($frame, 1)) ==> lastFile[l] == frame_file(up($frame, 1)) && lastLine[l] == frame_line(up($frame, 1))
@@ -250,7 +250,7 @@ package log
 //@   requires tag != nil
 //@   let l = loggerOf(tag)
 //@   let on = enable(Logger.GetLevel(l), PanicLevel)
-//@   modifies appended[l], lastLevel[l], lastTag[l], lastFields[l], lastFile[l], lastLine[l], lastTime[l], lastCtxString[l], lastCtxFields[l], all(Event), calls(TimeNow), calls(StringFromContext), calls(FieldsFromContext), lastNow
+//@   modifies appended[l], lastLevel[l], lastTag[l], lastFields[l], lastFile[l], lastLine[l], lastTime[l], lastCtxString[l], lastCtxFields[l], all(Event), calls(TimeNow), calls(StringFromContext), calls(FieldsFromContext), lastNow, pooled
 //@   ensures[C01:own-level] on ==> appended[l] == old(appended[l]) + 1 && lastLevel[l] == PanicLevel && lastTag[l] == tag.tag && lastFields[l] == fields
 //@   ensures[C01,C10:disabled] !on ==> appended[l] == old(appended[l]) && calls(TimeNow) == old(calls(TimeNow)) && calls(StringFromContext) == old(calls(StringFromContext)) && calls(FieldsFromContext) == old(calls(FieldsFromContext))
 //@   ensures[C11:caller] on && enableCaller && deep(up($frame, 1)) ==> lastFile[l] == frame_file(up($frame, 1)) && lastLine[l] == frame_line(up($frame, 1))
@@ -259,7 +259,7 @@ package log
 //@   requires tag != nil
 //@   let l = loggerOf(tag)
 //@   let on = enable(Logger.GetLevel(l), PanicLevel)
-//@   modifies appended[l], lastLevel[l], lastTag[l], lastFields[l], lastFile[l], lastLine[l], lastTime[l], lastCtxString[l], lastCtxFields[l], all(Event), calls(TimeNow), calls(StringFromContext), calls(FieldsFromContext), elems(Field), lastNow
+//@   modifies appended[l], lastLevel[l], lastTag[l], lastFields[l], lastFile[l], lastLine[l], lastTime[l], lastCtxString[l], lastCtxFields[l], all(Event), calls(TimeNow), calls(StringFromContext), calls(FieldsFromContext), elems(Field), lastNow, pooled
 //@   ensures[C01:own-level] on ==> appended[l] == old(appended[l]) + 1 && lastLevel[l] == PanicLevel && lastTag[l] == tag.tag
 //@   ensures[C01,C10:disabled] !on ==> appended[l] == old(appended[l]) && calls(TimeNow) == old(calls(TimeNow)) && calls(StringFromContext) == old(calls(StringFromContext)) && calls(FieldsFromContext) == old(calls(FieldsFromContext))
 //@   ensures[C11:caller] on && enableCaller && deep(up($frame, 1)) ==> lastFile[l] == frame_file(up($frame, 1)) && lastLine[l] == frame_line(up($frame, 1))
@@ -268,7 +268,7 @@ package log
 //@   requires tag != nil
 //@   let l = loggerOf(tag)
 //@   let on = enable(Logger.GetLevel(l), FatalLevel)
-//@   modifies appended[l], lastLevel[l], lastTag[l], lastFields[l], lastFile[l], lastLine[l], lastTime[l], lastCtxString[l], lastCtxFields[l], all(Event), calls(TimeNow), calls(StringFromContext), calls(FieldsFromContext), lastNow
+//@   modifies appended[l], lastLevel[l], lastTag[l], lastFields[l], lastFile[l], lastLine[l], lastTime[l], lastCtxString[l], lastCtxFields[l], all(Event), calls(TimeNow), calls(StringFromContext), calls(FieldsFromContext), lastNow, pooled
 //@   ensures[C01:own-level] on ==> appended[l] == old(appended[l]) + 1 && lastLevel[l] == FatalLevel && lastTag[l] == tag.tag && lastFields[l] == fields
 //@   ensures[C01,C10:disabled] !on ==> appended[l] == old(appended[l]) && calls(TimeNow) == old(calls(TimeNow)) && calls(StringFromContext) == old(calls(StringFromContext)) && calls(FieldsFromContext) == old(calls(FieldsFromContext))
 //@   ensures[C11:caller] on && enableCaller && deep(up($frame, 1)) ==> lastFile[l] == frame_file(up($frame, 1)) && lastLine[l] == frame_line(up($frame, 1))
@@ -277,7 +277,7 @@ package log
 //@   requires tag != nil
 //@   let l = loggerOf(tag)
 //@   let on = enable(Logger.GetLevel(l), FatalLevel)
-//@   modifies appended[l], lastLevel[l], lastTag[l], lastFields[l], lastFile[l], lastLine[l], lastTime[l], lastCtxString[l], lastCtxFields[l], all(Event), calls(TimeNow), calls(StringFromContext), calls(FieldsFromContext), elems(Field), lastNow
+//@   modifies appended[l], lastLevel[l], lastTag[l], lastFields[l], lastFile[l], lastLine[l], lastTime[l], lastCtxString[l], lastCtxFields[l], all(Event), calls(TimeNow), calls(StringFromContext), calls(FieldsFromContext), elems(Field), lastNow, pooled
 //@   ensures[C01:own-level] on ==> appended[l] == old(appended[l]) + 1 && lastLevel[l] == FatalLevel && lastTag[l] == tag.tag
 //@   ensures[C01,C10:disabled] !on ==> appended[l] == old(appended[l]) && calls(TimeNow) == old(calls(TimeNow)) && calls(StringFromContext) == old(calls(StringFromContext)) && calls(FieldsFromContext) == old(calls(FieldsFromContext))
 //@   ensures[C11:caller] on && enableCaller && deep(up($frame, 1)) ==> lastFile[l] == frame_file(up($frame, 1)) && lastLine[l] == frame_line(up($frame, 1))
@@ -287,7 +287,7 @@ package log
 //@   requires 0 <= skip && skip <= 1000000
 //@   let l = loggerOf(tag)
 //@   let on = enable(Logger.GetLevel(l), level)
-//@   modifies appended[l], lastLevel[l], lastTag[l], lastFields[l], lastFile[l], lastLine[l], lastTime[l], lastCtxString[l], lastCtxFields[l], all(Event), calls(TimeNow), calls(StringFromContext), calls(FieldsFromContext), lastNow
+//@   modifies appended[l], lastLevel[l], lastTag[l], lastFields[l], lastFile[l], lastLine[l], lastTime[l], lastCtxString[l], lastCtxFields[l], all(Event), calls(TimeNow), calls(StringFromContext), calls(FieldsFromContext), lastNow, pooled
 //@   ensures[C01:own-level] on ==> appended[l] == old(appended[l]) + 1 && lastLevel[l] == level && lastTag[l] == tag.tag && lastFields[l] == fields
 //@   ensures[C01,C10:disabled] !on ==> appended[l] == old(appended[l]) && calls(TimeNow) == old(calls(TimeNow)) && calls(StringFromContext) == old(calls(StringFromContext)) && calls(FieldsFromContext) == old(calls(FieldsFromContext))
 //@   ensures[C11:caller] on && enableCaller && deep(up($frame, skip)) ==> lastFile[l] == frame_file(up($frame, skip)) && lastLine[l] == frame_line(up($frame, skip))
@@ -613,3 +613,16 @@ package log
 //@   loop 1 invariant[C01:untouched-below] forall k int :: 0 <= k && k <= i ==> maxKept(c.AppenderRefs[k])
 //@   loop 1 invariant[C01:chained-above] forall k int :: i < k && k < len(c.AppenderRefs) ==> chained(c, c.AppenderRefs[k])
 //@   loop 1 invariant[C01:next] (i + 1 < len(c.AppenderRefs) ==> isNextHigher(c, c.AppenderRefs[i+1], next)) && (i + 1 >= len(c.AppenderRefs) ==> next == MaxLevel)
+
+// ---- C03: ownership of the formatted line --------------------------------------------------------------
+
+//@ axiom poolKind[addr(bufferPool)] == typetag(*bytes.Buffer)
+
+//@ func (*BaseLayout).GetBuffer
+//@   modifies pooled[result]
+//@   ensures[C03,C07,C08:fresh-buffer] result != nil && !pooled[result] && result.out == bnil
+
+//@ func (*BaseLayout).PutBuffer
+//@   requires buf != nil && !pooled[buf]
+//@   modifies buf.out, pooled[buf]
+//@   ensures[C03:reset-when-pooled] pooled[buf] ==> buf.out == bnil
